@@ -1,5 +1,7 @@
 import CogentModel.Model.Optimiser
 import CogentModel.Proofs.Optimiser
+import CogentModel.Proofs.OptimiserProj
+import Mathlib.Algebra.Order.Group.Defs
 /-! # C16 — nested-model initialisation and optimisation never lose likelihood
 
 Property theorems about the model `Model/Optimiser.lean` of
@@ -125,5 +127,116 @@ def exC : Cfg Nat Int :=
 example :
     (maximise exC 2 [4, 6, 8, 10]).final = .done 6 6 3 (some (.maxEvals 3)) ∧
     (maximise exC 2 [4, 6, 8, 10]).st.calls.length = 4 := by decide
+
+/-- **Likelihood-ratio statistics of nested hypotheses are never negative.**  If the alternative
+starts at a point whose value is the null's optimum `lnLnull` (that is what
+`initialise_from_nested` provides, see `projection_exact`), then whatever the optimiser does and
+whatever the evaluation limit, the alternative's reported value `fb` satisfies
+`LR = 2·(fb − lnLnull) ≥ 0`. -/
+theorem lr_nonneg [LinearOrder Y] [AddCommGroup Y] [IsOrderedAddMonoid Y] (cA : Cfg X Y)
+    (hg : ∀ a b, cA.gt a b = decide (b < a))
+    (x0 : X) (lnLnull : Y) (h0 : cA.f x0 = .val lnLnull) (hb : cA.inB x0 = true)
+    (hfin : cA.fin lnLnull = true) (hbot : cA.negInf < lnLnull) (hmax : cA.maxEvals ≠ some 0)
+    (qs : List X) :
+    ∃ fb xb n exc, (maximise cA x0 qs).final = .done fb xb n exc ∧ cA.f xb = .val fb ∧
+      0 ≤ (fb - lnLnull) + (fb - lnLnull) := by
+  obtain ⟨fb, xb, n, exc, h1, h2, h3, _⟩ := maximise_never_worse cA hg x0 lnLnull h0 hb hfin hbot hmax qs
+  exact ⟨fb, xb, n, exc, h1, h2, add_nonneg (sub_nonneg.mpr h3) (sub_nonneg.mpr h3)⟩
+
+example : (maximise exA 2 []).final = .done 1 2 1 none ∧ (0 : Int) ≤ (1 - 1) + (1 - 1) := by decide
+
+/-! ## `Calculator.optimise`: start values are clamped into the bounds -/
+
+/-- If both `numpy.allclose` tests of `Calculator.optimise` succeed (every coordinate below its
+lower / above its upper bound is close to it) and `lower ≤ upper`, the vector handed to
+`maximise` satisfies `bounded_function`'s test, so the first evaluation cannot raise
+"Initial parameter values must be valid"; a vector already within bounds is not changed. -/
+theorem start_clamp_in_bounds {R : Type} [LinearOrder R] (close : R → R → Bool) (v : List (Coord R))
+    (hlohi : ∀ c ∈ v, c.lo ≤ c.hi)
+    (hL : v.all (fun c => !(decide (c.x < c.lo)) || close c.x c.lo) = true)
+    (hH : (clampLow (fun a b => decide (a < b)) close v).all
+            (fun c => !(decide (c.hi < c.x)) || close c.x c.hi) = true) :
+    inBounds (fun a b => decide (a < b)) (clampStart (fun a b => decide (a < b)) close v) = true ∧
+    (inBounds (fun a b => decide (a < b)) v = true → clampStart (fun a b => decide (a < b)) close v = v) :=
+  ⟨clampStart_inBounds close v hlohi hL hH, clampStart_id close v⟩
+
+example : (clampStart (fun a b : Int => decide (a < b)) (fun a b => decide (a - b ≤ 1 ∧ b - a ≤ 1))
+    [⟨-1, 0, 10⟩, ⟨11, 0, 10⟩, ⟨5, 0, 10⟩]).map (·.x) = [0, 10, 5] := by decide
+
+/-! ## nested parameter projection -/
+
+/-- **The projection between nested models is exact (same stationarity class).**  If the two
+coordinate families satisfy the decidable predicate `nestedSame` (evaluated by the driver on the
+real coordinate dictionaries of the named models), then for EVERY list of nested-model rules with
+values in ANY monoid (every parameter value, every edge scope: rules are projected one by one and
+keep their scope), the rule list produced by `_ParamProjection.update_param_rules` describes, at
+every cell of the rate matrix, the same exchangeability as the nested model's own rules. -/
+theorem projection_exact {N V : Type} [DecidableEq N] [Monoid V] (ref : N) (pass : N → Bool)
+    (rich simple : Coords N) (hnest : nestedSame ref rich simple = true) (rules : List (N × V))
+    (hnames : ∀ r ∈ rules, pass r.1 = false → r.1 ≠ ref ∧ ∃ cs, (r.1, cs) ∈ simple)
+    (hpass : ∀ n, pass n = true → coordsOf rich n = [] ∧ coordsOf simple n = []) :
+    ∃ ch, chosenAll rich simple = .ok ch ∧ ∀ cell ∈ cellsOf rich ++ cellsOf simple,
+      cellRate (· * ·) 1 rich (projectSame ref pass rich ch rules) cell
+        = cellRate (· * ·) 1 simple rules cell := by
+  obtain ⟨ch, hch, hc⟩ := nestedSame_spec hnest
+  refine ⟨ch, hch, ?_⟩
+  intro cell hcell
+  apply rate_projectSame ref pass rich simple ch cell rules
+  · intro r hr hp
+    obtain ⟨hne, cs, hmem⟩ := hnames r hr hp
+    exact hc (r.1, cs) hmem hne cell hcell
+  · intro r _ hp
+    obtain ⟨h1, h2⟩ := hpass r.1 hp
+    rw [h1, h2]
+    exact ⟨rfl, rfl⟩
+
+/-- **Not-same projection (stationary null → non-stationary alternative), partial.**  Every rule
+emitted by `update_param_rules(same=False)` for a rich parameter `p` that takes its value from the
+nested rule `(sp, v)` (or from the appended `("ref_cell", 1.0)`) satisfies
+`value · π_ref = π_j · v`, where `j` is the column of `p`'s (last) cell: the rich rate is the
+nested model's `Q` entry `π_j · v` up to the ONE global factor `1/π_ref`, which calibration removes.
+`mprobs`/`length` rules pass through unchanged. -/
+theorem projection_not_same_partial {N V : Type} [DecidableEq N] [Field V] (pi : Nat → V) (ref : N)
+    (pass : N → Bool) (rich : Coords N) (ch : List (N × Option N)) (rules out : List (N × V))
+    (h : projectNotSame (· * ·) (· / ·) 1 pi ref pass rich ch rules = .ok out) :
+    ∃ rc, (coordsOf rich ref).head? = some rc ∧
+      ∀ p ∈ out, (pass p.1 = true ∧ p ∈ rules ++ [(ref, 1)]) ∨
+        ∃ r ∈ rules ++ [(ref, (1 : V))], pass r.1 = false ∧ p.1 ∈ targets ref rich ch r.1 ∧
+          (pi rc.2 ≠ 0 → p.2 * pi rc.2 = pi ((lastCol (coordsOf rich p.1)).getD 0) * r.2) :=
+  projectNotSame_spec pi ref pass rich ch rules out h
+
+/- FULL STATEMENT (not proved): `projection_exact` for the not-same case — under a decidable
+predicate `nestedNotSame rich simple π` (each rich parameter's cells share one column `j`, or `π`
+is constant on them; every off-diagonal cell is covered by exactly one projected rule), for every
+cell `(i,j)`: `cellRate rich projected (i,j) · π_ref = π_j · cellRate simple rules (i,j)`.
+Why not: with k ≥ 2 rules covering a cell the factor is `(π_j/π_ref)^k`, so the statement needs the
+"exactly one rule per cell" bookkeeping on top of `projection_not_same_partial`; the per-rule
+identity above is the code-specific part.  The whole pipeline (equal exchangeabilities ⇒ equal Q
+⇒ equal lnL) is exercised on real data for every stationary → GN / ssGN pair by `spec_check`.
+
+FULL STATEMENT (not proved): `scoped_rules_preserve_values` — for `update_scoped_rules rich null`:
+every (parameter, edge) covered by a rich rule gets the value the nested rules give that
+(parameter, edge).  Not modelled in Lean (dict-of-frozenset keying, set iteration order); it is
+exercised by the real-data scoping nestings of `spec_check`, which found that the statement is
+FALSE as the code stands: an edge-scoped rich rule whose parameter has no nested rule makes
+`matches[0]` raise IndexError (known finding C16-scoped-rule-without-nested-counterpart). -/
+
+example : projectNotSame (· * ·) (· / ·) (1 : Rat) (fun j => [1/10, 2/10, 3/10, 4/10].getD j 0)
+    "ref_cell" (fun n => n == "length")
+    [("A>C", [(2, 1)]), ("ref_cell", [(0, 3)])] [("A>C", some "k"), ("ref_cell", some "ref_cell")]
+    [("k", 3)] = .ok [("A>C", 3/2)] := by decide +kernel
+
+/-- HKY85 ⊂ GTR with the real coordinate sets (alphabet order T, C, A, G) -/
+def exHKY : Coords String :=
+  [("kappa", [(0, 1), (1, 0), (2, 3), (3, 2)]),
+   ("ref_cell", [(0, 2), (0, 3), (1, 2), (1, 3), (2, 0), (2, 1), (3, 0), (3, 1)])]
+def exGTR : Coords String :=
+  [("A/C", [(1, 2), (2, 1)]), ("A/G", [(2, 3), (3, 2)]), ("A/T", [(0, 2), (2, 0)]),
+   ("C/G", [(1, 3), (3, 1)]), ("C/T", [(0, 1), (1, 0)]), ("ref_cell", [(0, 3), (3, 0)])]
+example : nestedSame "ref_cell" exGTR exHKY = true := by decide
+example : paramMapping exGTR exHKY
+    = .ok [("kappa", ["A/G", "C/T"]), ("ref_cell", ["A/C", "A/T", "C/G", "ref_cell"])] := by decide
+/-- a non-nested pair is rejected: GTR is not nested in HKY85 -/
+example : paramMapping exHKY exGTR = .error .assertion := by decide
 
 end CogentModel.C16
